@@ -1088,6 +1088,594 @@ Section MerkleProofs.
     apply nth_error_None in Hr. rewrite Hr. reflexivity.
   Qed.
 
+  (* -------------------------------------------------------------------------------------- *)
+  (* batch trees (batch_merkle_tree.rs): layers of heights k0 > k1 > .. >= h; the cap of one
+     stage, extended by the rows of the next layer, is the leaf layer of the next stage *)
+
+  Notation batch_layers := (batch_layers F digest hash_leaf two_to_one digest_to_vec).
+  Notation batch_merkle_tree_new := (batch_merkle_tree_new F digest hash_leaf two_to_one digest_to_vec).
+  Notation open_batch_layers := (open_batch_layers digest).
+  Notation open_batch := (open_batch F digest).
+  Notation batch_values := (batch_values F digest).
+  Notation batch_walk := (batch_walk F digest hash_leaf two_to_one digest_to_vec).
+  Notation verify_batch := (verify_batch_merkle_proof_to_cap F digest hash_leaf two_to_one digest_eqb digest_to_vec).
+
+  Definition combine_cap (cap : list digest) (cur : list (list F)) : list (list F) :=
+    map (fun p => digest_to_vec (fst p) ++ snd p) (combine cap cur).
+
+  (* [rest]: the remaining layers with their heights; [lv], [kc]: leaves and height of the
+     current stage; [h]: cap height. Digest array, final cap, opening of position idx. *)
+  Fixpoint bdigests (lv : list (list F)) (kc : nat) (rest : list (list (list F) * nat)) (h : nat)
+    : list digest :=
+    match rest with
+    | [] => digests_spec (kc - h) lv
+    | (nxt, kn) :: rest' =>
+      digests_spec (kc - kn) lv ++ bdigests (combine_cap (cap_spec (kc - kn) lv) nxt) kn rest' h
+    end.
+
+  Fixpoint bcap (lv : list (list F)) (kc : nat) (rest : list (list (list F) * nat)) (h : nat)
+    : list digest :=
+    match rest with
+    | [] => cap_spec (kc - h) lv
+    | (nxt, kn) :: rest' => bcap (combine_cap (cap_spec (kc - kn) lv) nxt) kn rest' h
+    end.
+
+  Fixpoint bopen (lv : list (list F)) (kc : nat) (rest : list (list (list F) * nat)) (h idx : nat)
+    : list digest :=
+    match rest with
+    | [] => opening (kc - h) lv idx
+    | (nxt, kn) :: rest' =>
+      opening (kc - kn) lv idx
+      ++ bopen (combine_cap (cap_spec (kc - kn) lv) nxt) kn rest' h (idx / 2 ^ (kc - kn))
+    end.
+
+  (* well-formed remaining layers below a stage of height kc: sizes 2^kn, strictly decreasing
+     heights, all at least h *)
+  Fixpoint bwf (kc : nat) (rest : list (list (list F) * nat)) (h : nat) : Prop :=
+    match rest with
+    | [] => h <= kc
+    | (nxt, kn) :: rest' => length nxt = 2 ^ kn /\ kn < kc /\ bwf kn rest' h
+    end.
+
+  Lemma bwf_h kc rest h : bwf kc rest h -> h <= kc.
+  Proof.
+    revert kc; induction rest as [|[nxt kn] rest IH]; intros kc; cbn [bwf]; [auto|].
+    intros (_ & Hlt & Hw). apply IH in Hw. lia.
+  Qed.
+
+  Lemma combine_cap_length cap cur : length cap = length cur -> length (combine_cap cap cur) = length cur.
+  Proof. intros E. unfold combine_cap. rewrite map_length, combine_length. lia. Qed.
+
+  Lemma bdigests_length : forall rest lv kc h,
+    length lv = 2 ^ kc -> bwf kc rest h -> length (bdigests lv kc rest h) = 2 * (2 ^ kc - 2 ^ h).
+  Proof.
+    induction rest as [|[nxt kn] rest IH]; intros lv kc h Hl Hw; cbn [bdigests bwf] in *.
+    - rewrite (num_digests_eq kc h Hw). apply digests_spec_length. rewrite Hl. apply pow2_km. exact Hw.
+    - destruct Hw as (Hn & Hlt & Hw). pose proof (bwf_h _ _ _ Hw) as Hh.
+      assert (Hl' : length lv = 2 ^ kn * 2 ^ (kc - kn)) by (rewrite Hl; apply pow2_km; lia).
+      rewrite app_length, (digests_spec_length _ kn lv Hl').
+      rewrite IH; [| |exact Hw].
+      + rewrite <- (num_digests_eq kc kn) by lia.
+        assert (2 ^ h <= 2 ^ kn) by (apply Nat.pow_le_mono_r; lia).
+        assert (2 ^ kn <= 2 ^ kc) by (apply Nat.pow_le_mono_r; lia). lia.
+      + rewrite combine_cap_length; [exact Hn|]. rewrite (cap_spec_length _ kn lv Hl'). lia.
+  Qed.
+
+  Lemma apply_writes_window ws vals pre post :
+    Permutation ws (combine (seq (length pre) (length vals)) vals) ->
+    apply_writes ws (pre ++ repeat None (length vals) ++ post) = pre ++ map Some vals ++ post.
+  Proof.
+    intros Hp. rewrite (apply_writes_perm _ _ Hp).
+    - apply apply_writes_seq.
+    - eapply Permutation_NoDup; [apply Permutation_map, Permutation_sym, Hp|].
+      rewrite map_fst_combine by (rewrite seq_length; reflexivity). apply seq_NoDup.
+  Qed.
+
+  Lemma apply_writes_ordered n vals :
+    length vals = n -> all_init (apply_writes (combine (seq 0 n) vals) (repeat None n)) = Some vals.
+  Proof. intros <-. apply apply_writes_total. apply Permutation_refl. Qed.
+
+  Lemma log2_strict_pow2_neq a b : 2 ^ a = 2 ^ b -> a = b.
+  Proof. intros E. apply Nat.pow_inj_r in E; lia. Qed.
+
+  Lemma batch_layers_cons nd ll cur rest dl buf pos cap hs :
+    batch_layers nd ll (cur :: rest) dl buf pos cap hs =
+      let cur_leaf_len := length cur in
+      let next_cap_len := match rest with nxt :: _ => length nxt | [] => dl end in
+      match log2_strict next_cap_len, log2_strict cur_leaf_len with
+      | Some next_cap_height, Some cur_h =>
+        if cur_leaf_len <? next_cap_len then None
+        else
+          let num_tmp_digests := 2 * (cur_leaf_len - next_cap_len) in
+          if nd <? pos + num_tmp_digests then None
+          else
+            let lv :=
+              if cur_leaf_len =? ll then Some cur
+              else if length cap <=? length cur
+                   then Some (map (fun p => digest_to_vec (fst p) ++ snd p) (combine cap cur))
+                   else None in
+            match lv with
+            | None => None
+            | Some lv =>
+              match fill_digests_buf pos num_tmp_digests next_cap_len lv next_cap_height with
+              | None => None
+              | Some (dw, cw) =>
+                match all_init (apply_writes cw (repeat None next_cap_len)) with
+                | None => None
+                | Some cap' =>
+                  batch_layers nd ll rest dl (apply_writes dw buf)
+                               (pos + num_tmp_digests) cap' (hs ++ [cur_h])
+                end
+              end
+            end
+      | _, _ => None
+      end.
+  Proof. reflexivity. Qed.
+
+  (* the loop of BatchMerkleTree::new from one stage on *)
+  Lemma batch_layers_spec : forall (rest : list (list (list F) * nat)) cur kc lv cap pre heights
+                                   num_digests leaves_len h,
+    length cur = 2 ^ kc -> bwf kc rest h ->
+    2 ^ kc <= leaves_len ->
+    ((length cur = leaves_len /\ lv = cur)
+     \/ (length cur <> leaves_len /\ length cap = length cur /\ lv = combine_cap cap cur)) ->
+    num_digests = length pre + 2 * (2 ^ kc - 2 ^ h) ->
+    batch_layers num_digests leaves_len (cur :: map fst rest) (2 ^ h)
+                 (pre ++ repeat None (2 * (2 ^ kc - 2 ^ h))) (length pre) cap heights
+    = Some (pre ++ map Some (bdigests lv kc rest h), bcap lv kc rest h, heights ++ kc :: map snd rest).
+  Proof.
+    induction rest as [|[nxt kn] rest IH];
+      intros cur kc lv cap pre heights num_digests leaves_len h Hcur Hw Hle Hlv Hnum.
+    - (* last layer: the next "cap length" is the dummy layer of 2^h rows *)
+      cbn [bwf] in Hw. cbn [map bdigests bcap]. rewrite batch_layers_cons. cbv zeta.
+      rewrite Hcur, !log2_strict_pow2.
+      assert (Hpow : 2 ^ h <= 2 ^ kc) by (apply Nat.pow_le_mono_r; lia).
+      replace (2 ^ kc <? 2 ^ h) with false by (symmetry; apply Nat.ltb_ge; lia).
+      replace (num_digests <? length pre + 2 * (2 ^ kc - 2 ^ h)) with false
+        by (symmetry; apply Nat.ltb_ge; lia).
+      assert (Hlvlen : length lv = 2 ^ kc).
+      { destruct Hlv as [[_ ->]|(_ & Hc & ->)]; [exact Hcur|]. rewrite combine_cap_length; assumption. }
+      assert (Elv : (if 2 ^ kc =? leaves_len then Some cur
+                     else if length cap <=? 2 ^ kc
+                          then Some (map (fun p => digest_to_vec (fst p) ++ snd p) (combine cap cur))
+                          else None) = Some lv).
+      { destruct Hlv as [[E ->]|(Hne & Hc & ->)].
+        - rewrite <- Hcur, E, Nat.eqb_refl. reflexivity.
+        - replace (2 ^ kc =? leaves_len) with false by (symmetry; apply Nat.eqb_neq; lia).
+          replace (length cap <=? 2 ^ kc) with true by (symmetry; apply Nat.leb_le; lia).
+          reflexivity. }
+      rewrite Elv.
+      assert (Hl' : length lv = 2 ^ h * 2 ^ (kc - h)) by (rewrite Hlvlen; apply pow2_km; exact Hw).
+      rewrite (num_digests_eq kc h Hw).
+      destruct (fill_digests_buf_spec h (kc - h) (length pre) lv Hl') as (dw & E & Pd).
+      rewrite E.
+      rewrite (apply_writes_ordered (2 ^ h)) by (apply cap_spec_length; exact Hl').
+      rewrite <- (digests_spec_length (kc - h) h lv Hl') in Pd |- *.
+      pose proof (apply_writes_window dw (digests_spec (kc - h) lv) pre [] Pd) as Ew.
+      rewrite !app_nil_r in Ew. rewrite Ew. reflexivity.
+    - cbn [bwf] in Hw. destruct Hw as (Hn & Hlt & Hw). pose proof (bwf_h _ _ _ Hw) as Hh.
+      cbn [map fst snd bdigests bcap]. rewrite batch_layers_cons. cbv zeta.
+      rewrite Hcur, Hn, !log2_strict_pow2.
+      assert (Hpow : 2 ^ kn < 2 ^ kc) by (apply Nat.pow_lt_mono_r; lia).
+      assert (Hpowh : 2 ^ h <= 2 ^ kn) by (apply Nat.pow_le_mono_r; lia).
+      replace (2 ^ kc <? 2 ^ kn) with false by (symmetry; apply Nat.ltb_ge; lia).
+      replace (num_digests <? length pre + 2 * (2 ^ kc - 2 ^ kn)) with false
+        by (symmetry; apply Nat.ltb_ge; lia).
+      assert (Hlvlen : length lv = 2 ^ kc).
+      { destruct Hlv as [[_ ->]|(_ & Hc & ->)]; [exact Hcur|]. rewrite combine_cap_length; assumption. }
+      assert (Elv : (if 2 ^ kc =? leaves_len then Some cur
+                     else if length cap <=? 2 ^ kc
+                          then Some (map (fun p => digest_to_vec (fst p) ++ snd p) (combine cap cur))
+                          else None) = Some lv).
+      { destruct Hlv as [[E ->]|(Hne & Hc & ->)].
+        - rewrite <- Hcur, E, Nat.eqb_refl. reflexivity.
+        - replace (2 ^ kc =? leaves_len) with false by (symmetry; apply Nat.eqb_neq; lia).
+          replace (length cap <=? 2 ^ kc) with true by (symmetry; apply Nat.leb_le; lia).
+          reflexivity. }
+      rewrite Elv.
+      assert (Hl' : length lv = 2 ^ kn * 2 ^ (kc - kn)) by (rewrite Hlvlen; apply pow2_km; lia).
+      rewrite (num_digests_eq kc kn) by lia.
+      destruct (fill_digests_buf_spec kn (kc - kn) (length pre) lv Hl') as (dw & E & Pd).
+      rewrite E.
+      rewrite (apply_writes_ordered (2 ^ kn)) by (apply cap_spec_length; exact Hl').
+      pose proof (digests_spec_length (kc - kn) kn lv Hl') as Hdl.
+      rewrite <- Hdl in Pd.
+      replace (2 * (2 ^ kc - 2 ^ h)) with (length (digests_spec (kc - kn) lv) + 2 * (2 ^ kn - 2 ^ h))
+        by (rewrite Hdl, <- (num_digests_eq kc kn) by lia; lia).
+      rewrite repeat_app.
+      rewrite (apply_writes_window dw (digests_spec (kc - kn) lv) pre _ Pd).
+      replace (pre ++ map Some (digests_spec (kc - kn) lv) ++ repeat None (2 * (2 ^ kn - 2 ^ h)))
+        with ((pre ++ map Some (digests_spec (kc - kn) lv)) ++ repeat None (2 * (2 ^ kn - 2 ^ h)))
+        by (rewrite <- app_assoc; reflexivity).
+      replace (length pre + length (digests_spec (kc - kn) lv))
+        with (length (pre ++ map Some (digests_spec (kc - kn) lv)))
+        by (rewrite app_length, map_length; reflexivity).
+      rewrite <- Hdl.
+      replace (length pre + length (digests_spec (kc - kn) lv))
+        with (length (pre ++ map Some (digests_spec (kc - kn) lv)))
+        by (rewrite app_length, map_length; reflexivity).
+      rewrite (IH nxt kn (combine_cap (cap_spec (kc - kn) lv) nxt)); try assumption.
+      + rewrite map_app, <- !app_assoc. cbn [app]. reflexivity.
+      + lia.
+      + right. split; [rewrite Hn; lia|]. split; [|reflexivity].
+        rewrite (cap_spec_length (kc - kn) kn lv Hl'). lia.
+      + rewrite app_length, map_length, Hdl, <- (num_digests_eq kc kn) by lia. lia.
+  Qed.
+
+  Lemma bcap_length : forall rest lv kc h,
+    length lv = 2 ^ kc -> bwf kc rest h -> length (bcap lv kc rest h) = 2 ^ h.
+  Proof.
+    induction rest as [|[nxt kn] rest IH]; intros lv kc h Hl Hw; cbn [bcap bwf] in *.
+    - apply cap_spec_length. rewrite Hl. apply pow2_km. exact Hw.
+    - destruct Hw as (Hn & Hlt & Hw). apply IH; [|exact Hw].
+      rewrite combine_cap_length; [exact Hn|].
+      rewrite (cap_spec_length _ kn lv) by (rewrite Hl; apply pow2_km; lia). lia.
+  Qed.
+
+  Lemma is_pow2_pow2 k : is_pow2 (2 ^ k) = true.
+  Proof. unfold is_pow2. rewrite log2_strict_pow2. reflexivity. Qed.
+
+  Lemma bwf_forallb : forall rest kc h,
+    bwf kc rest h -> forallb (fun m : list (list F) => is_pow2 (length m)) (map fst rest) = true.
+  Proof.
+    induction rest as [|[nxt kn] rest IH]; intros kc h Hw; [reflexivity|].
+    cbn [bwf] in Hw. destruct Hw as (Hn & _ & Hw). cbn [map fst forallb].
+    rewrite Hn, is_pow2_pow2. eapply IH; eauto.
+  Qed.
+
+  Lemma bwf_decreasing : forall rest (cur : list (list F)) kc h,
+    length cur = 2 ^ kc -> bwf kc rest h ->
+    strictly_decreasing (map (@length _) (cur :: map fst rest)) = true.
+  Proof.
+    induction rest as [|[nxt kn] rest IH]; intros cur kc h Hc Hw; [reflexivity|].
+    cbn [bwf] in Hw. destruct Hw as (Hn & Hlt & Hw).
+    specialize (IH nxt kn h Hn Hw). cbn [map fst] in *. cbn [strictly_decreasing].
+    cbn [strictly_decreasing] in IH. rewrite IH, Hc, Hn, andb_true_r.
+    apply Nat.ltb_lt. apply Nat.pow_lt_mono_r; lia.
+  Qed.
+
+  Lemma bwf_last : forall rest (cur : list (list F)) kc h,
+    length cur = 2 ^ kc -> bwf kc rest h ->
+    exists kl, log2_strict (length (last (cur :: map fst rest) [])) = Some kl /\ h <= kl.
+  Proof.
+    induction rest as [|[nxt kn] rest IH]; intros cur kc h Hc Hw.
+    - cbn [map last]. rewrite Hc, log2_strict_pow2. exists kc. split; [reflexivity|exact Hw].
+    - cbn [bwf] in Hw. destruct Hw as (Hn & Hlt & Hw).
+      destruct (IH nxt kn h Hn Hw) as (kl & E & Hh). exists kl. split; [|exact Hh].
+      cbn [map fst] in *. exact E.
+  Qed.
+
+  Theorem batch_merkle_tree_new_spec first k0 rest h :
+    length first = 2 ^ k0 -> bwf k0 rest h ->
+    batch_merkle_tree_new (first :: map fst rest) h
+    = Some (mkBatch (first :: map fst rest) (bdigests first k0 rest h) (bcap first k0 rest h)
+                    (k0 :: map snd rest)).
+  Proof.
+    intros Hf Hw. unfold Merkle.batch_merkle_tree_new.
+    cbn [forallb]. rewrite Hf, is_pow2_pow2, (bwf_forallb rest k0 h Hw). cbn [andb negb].
+    rewrite (bwf_decreasing rest first k0 h Hf Hw). cbn [negb].
+    destruct (bwf_last rest first k0 h Hf Hw) as (kl & El & Hh). rewrite El.
+    replace (kl <? h) with false by (symmetry; apply Nat.ltb_ge; lia).
+    pose proof (batch_layers_spec rest first k0 first [] [] [] (2 * (2 ^ k0 - 2 ^ h)) (2 ^ k0) h
+                                  Hf Hw (le_n _) (or_introl (conj Hf eq_refl)) eq_refl) as E.
+    cbn [app length] in E. rewrite E.
+    rewrite all_init_map_Some. reflexivity.
+  Qed.
+
+  (* ---- open_batch ---- *)
+  Lemma slice_window {A} (pre seg post : list A) :
+    slice (pre ++ seg ++ post) (length pre) (length pre + length seg) = Some seg.
+  Proof.
+    unfold slice. rewrite !app_length.
+    replace ((length pre <=? length pre + length seg)
+             && (length pre + length seg <=? length pre + (length seg + length post))) with true
+      by (symmetry; apply andb_true_iff; split; apply Nat.leb_le; lia).
+    f_equal. rewrite skipn_app, skipn_all, Nat.sub_diag. cbn [skipn app].
+    replace (length pre + length seg - length pre) with (length seg) by lia.
+    rewrite firstn_app, firstn_all, Nat.sub_diag. cbn [firstn]. apply app_nil_r.
+  Qed.
+
+  Lemma open_batch_layers_cons2 dbg digests leaf_index initial_h cur_h next_h r pos :
+    open_batch_layers dbg digests leaf_index initial_h (cur_h :: next_h :: r) pos =
+      if (initial_h <? cur_h) || (2 ^ cur_h <? 2 ^ next_h) then None
+      else
+        let num_digests := 2 * (2 ^ cur_h - 2 ^ next_h) in
+        match slice digests pos (pos + num_digests) with
+        | None => None
+        | Some ds =>
+          match merkle_tree_prove dbg (leaf_index / 2 ^ (initial_h - cur_h)) (2 ^ cur_h) next_h ds,
+                open_batch_layers dbg digests leaf_index initial_h (next_h :: r) (pos + num_digests) with
+          | Some p, Some q => Some (p ++ q)
+          | _, _ => None
+          end
+        end.
+  Proof. reflexivity. Qed.
+
+  Lemma div_div_pow i a b : i / 2 ^ a / 2 ^ b = i / 2 ^ (a + b).
+  Proof.
+    rewrite Nat.div_div by (pose proof (pow2_pos a); pose proof (pow2_pos b); lia).
+    rewrite Nat.pow_add_r. reflexivity.
+  Qed.
+
+  Lemma open_batch_layers_spec dbg i k0 h : forall rest lv kc pre post,
+    length lv = 2 ^ kc -> bwf kc rest h -> kc <= k0 -> i / 2 ^ (k0 - kc) < 2 ^ kc ->
+    open_batch_layers dbg (pre ++ bdigests lv kc rest h ++ post) i k0
+                      (kc :: map snd rest ++ [h]) (length pre)
+    = Some (bopen lv kc rest h (i / 2 ^ (k0 - kc))).
+  Proof.
+    induction rest as [|[nxt kn] rest IH]; intros lv kc pre post Hl Hw Hk Hi.
+    - cbn [bwf] in Hw. cbn [map app bdigests bopen]. rewrite open_batch_layers_cons2.
+      assert (Hpow : 2 ^ h <= 2 ^ kc) by (apply Nat.pow_le_mono_r; lia).
+      replace (k0 <? kc) with false by (symmetry; apply Nat.ltb_ge; lia).
+      replace (2 ^ kc <? 2 ^ h) with false by (symmetry; apply Nat.ltb_ge; lia).
+      cbn [orb]. cbv zeta.
+      assert (Hdl : length (digests_spec (kc - h) lv) = 2 * (2 ^ kc - 2 ^ h)).
+      { rewrite (num_digests_eq kc h Hw). apply digests_spec_length. rewrite Hl. apply pow2_km. exact Hw. }
+      rewrite <- Hdl, slice_window.
+      rewrite (merkle_tree_prove_spec dbg lv kc h _ Hl Hw Hi).
+      cbn [Merkle.open_batch_layers]. rewrite app_nil_r. reflexivity.
+    - cbn [bwf] in Hw. destruct Hw as (Hn & Hlt & Hw). pose proof (bwf_h _ _ _ Hw) as Hh.
+      cbn [map fst snd app bdigests bopen]. rewrite open_batch_layers_cons2.
+      assert (Hpow : 2 ^ kn <= 2 ^ kc) by (apply Nat.pow_le_mono_r; lia).
+      replace (k0 <? kc) with false by (symmetry; apply Nat.ltb_ge; lia).
+      replace (2 ^ kc <? 2 ^ kn) with false by (symmetry; apply Nat.ltb_ge; lia).
+      cbn [orb]. cbv zeta.
+      assert (Hl' : length lv = 2 ^ kn * 2 ^ (kc - kn)) by (rewrite Hl; apply pow2_km; lia).
+      assert (Hdl : length (digests_spec (kc - kn) lv) = 2 * (2 ^ kc - 2 ^ kn)).
+      { rewrite (num_digests_eq kc kn) by lia. apply digests_spec_length. exact Hl'. }
+      rewrite <- Hdl, <- app_assoc, slice_window.
+      rewrite (merkle_tree_prove_spec dbg lv kc kn _ Hl ltac:(lia) Hi).
+      replace (pre ++ digests_spec (kc - kn) lv
+                   ++ bdigests (combine_cap (cap_spec (kc - kn) lv) nxt) kn rest h ++ post)
+        with ((pre ++ digests_spec (kc - kn) lv)
+                ++ bdigests (combine_cap (cap_spec (kc - kn) lv) nxt) kn rest h ++ post)
+        by (rewrite <- app_assoc; reflexivity).
+      replace (length pre + length (digests_spec (kc - kn) lv))
+        with (length (pre ++ digests_spec (kc - kn) lv)) by (rewrite app_length; reflexivity).
+      assert (Eidx : i / 2 ^ (k0 - kn) = i / 2 ^ (k0 - kc) / 2 ^ (kc - kn))
+        by (rewrite div_div_pow; f_equal; f_equal; lia).
+      rewrite IH.
+      + rewrite Eidx. reflexivity.
+      + rewrite combine_cap_length; [exact Hn|]. rewrite (cap_spec_length _ kn lv Hl'). lia.
+      + exact Hw.
+      + lia.
+      + rewrite Eidx. apply Nat.div_lt_upper_bound; [pose proof (pow2_pos (kc - kn)); lia|].
+        rewrite <- Nat.pow_add_r. replace (kc - kn + kn) with kc by lia. exact Hi.
+  Qed.
+
+  Theorem open_batch_spec dbg first k0 rest h i :
+    length first = 2 ^ k0 -> bwf k0 rest h -> i < 2 ^ k0 ->
+    open_batch dbg (mkBatch (first :: map fst rest) (bdigests first k0 rest h) (bcap first k0 rest h)
+                            (k0 :: map snd rest)) i
+    = Some (bopen first k0 rest h i).
+  Proof.
+    intros Hf Hw Hi. unfold Merkle.open_batch.
+    cbn [bt_leaves bt_cap bt_digests bt_leaf_heights].
+    rewrite Hf, log2_strict_pow2, (bcap_length rest first k0 h Hf Hw), log2_strict_pow2.
+    pose proof (open_batch_layers_spec dbg i k0 h rest first k0 [] [] Hf Hw (le_n _)) as E.
+    rewrite Nat.sub_diag in E. cbn [Nat.pow] in E. rewrite Nat.div_1_r in E.
+    cbn [app length] in E. rewrite app_nil_r in E. apply E. exact Hi.
+  Qed.
+
+  (* ---- values ---- *)
+  Definition bvals (i k0 : nat) (all : list (list (list F) * nat)) : list (list F) :=
+    map (fun mk => nth (i / 2 ^ (k0 - snd mk)) (fst mk) []) all.
+
+  Lemma values_layers_spec i k0 : forall all,
+    i < 2 ^ k0 ->
+    (forall mk, In mk all -> length (fst mk) = 2 ^ snd mk /\ snd mk <= k0) ->
+    values_layers F i k0 (map fst all) (map snd all) = Some (bvals i k0 all).
+  Proof.
+    intros all Hi. induction all as [|[m k] all IH]; intros Hall; [reflexivity|].
+    cbn [map fst snd Merkle.values_layers bvals].
+    destruct (Hall (m, k) (or_introl eq_refl)) as [Hm Hk]. cbn [fst snd] in Hm, Hk.
+    replace (k0 <? k) with false by (symmetry; apply Nat.ltb_ge; lia).
+    assert (Hidx : i / 2 ^ (k0 - k) < length m).
+    { rewrite Hm. apply Nat.div_lt_upper_bound; [pose proof (pow2_pos (k0 - k)); lia|].
+      rewrite <- Nat.pow_add_r. replace (k0 - k + k) with k0 by lia. exact Hi. }
+    rewrite (nth_error_nth' m [] Hidx).
+    rewrite IH by (intros; apply Hall; right; assumption). reflexivity.
+  Qed.
+
+  Lemma bwf_all : forall rest kc h,
+    bwf kc rest h -> forall mk, In mk rest -> length (fst mk) = 2 ^ snd mk /\ snd mk <= kc.
+  Proof.
+    induction rest as [|[nxt kn] rest IH]; intros kc h Hw mk Hin; [destruct Hin|].
+    cbn [bwf] in Hw. destruct Hw as (Hn & Hlt & Hw). destruct Hin as [<-|Hin].
+    - cbn [fst snd]. split; [exact Hn|lia].
+    - destruct (IH kn h Hw mk Hin). split; [assumption|lia].
+  Qed.
+
+  Theorem batch_values_spec first k0 rest h i ds cp :
+    length first = 2 ^ k0 -> bwf k0 rest h -> i < 2 ^ k0 ->
+    batch_values (mkBatch (first :: map fst rest) ds cp (k0 :: map snd rest)) i
+    = Some (bvals i k0 ((first, k0) :: rest)).
+  Proof.
+    intros Hf Hw Hi. unfold Merkle.batch_values. cbn [bt_leaves bt_leaf_heights].
+    rewrite Hf, log2_strict_pow2.
+    apply (values_layers_spec i k0 ((first, k0) :: rest) Hi).
+    intros mk [<-|Hin]; [cbn [fst snd]; split; [exact Hf|lia]|].
+    eapply bwf_all; eauto.
+  Qed.
+
+  (* ---- verify_batch_merkle_proof_to_cap on the opening ---- *)
+  Lemma batch_walk_cons dbg ld hs cur cur_h ldi idx s r :
+    batch_walk dbg ld hs cur cur_h ldi idx (s :: r) =
+      let cur1 := walk_step cur idx s in
+      let idx1 := idx / 2 in
+      if dbg && (cur_h =? 0)%Z then None
+      else
+        let cur_h1 := (if cur_h =? 0 then 2 ^ 64 - 1 else cur_h - 1)%Z in
+        if (ldi <? length hs) && Z.eqb cur_h1 (Z.of_nat (nth ldi hs O)) then
+          batch_walk dbg ld hs (hash_leaf (digest_to_vec cur1 ++ nth ldi ld [])) cur_h1 (S ldi) idx1 r
+        else batch_walk dbg ld hs cur1 cur_h1 ldi idx1 r.
+  Proof. reflexivity. Qed.
+
+  (* one stage: the siblings of a stage of [length sibs] levels above height kn; the re-hash of
+     the next layer's row happens exactly after the last sibling, if there is a next layer *)
+  Lemma batch_walk_stage dbg ld hs kn ldi more : forall sibs cur idx,
+    (ldi < length hs -> nth ldi hs 0 = kn) ->
+    batch_walk dbg ld hs cur (Z.of_nat (kn + length sibs)) ldi idx (sibs ++ more) =
+      let '(d, j) := verify_walk cur idx sibs in
+      if (0 <? length sibs) && (ldi <? length hs)
+      then batch_walk dbg ld hs (hash_leaf (digest_to_vec d ++ nth ldi ld [])) (Z.of_nat kn) (S ldi) j more
+      else batch_walk dbg ld hs d (Z.of_nat kn) ldi j more.
+  Proof.
+    induction sibs as [|s r IH]; intros cur idx Hkn.
+    - cbn [app length Merkle.verify_walk Nat.ltb Nat.leb andb]. rewrite Nat.add_0_r. reflexivity.
+    - cbn [app length]. rewrite batch_walk_cons. cbv zeta.
+      replace (Z.of_nat (kn + S (length r)) =? 0)%Z with false by (symmetry; apply Z.eqb_neq; lia).
+      rewrite andb_false_r.
+      replace (Z.of_nat (kn + S (length r)) - 1)%Z with (Z.of_nat (kn + length r)) by lia.
+      cbn [Merkle.verify_walk].
+      destruct r as [|s' r'].
+      + (* last sibling of the stage *)
+        cbn [length app] in *. rewrite Nat.add_0_r.
+        cbn [Merkle.verify_walk]. change (0 <? 1) with true. cbn [andb].
+        destruct (ldi <? length hs) eqn:El.
+        * apply Nat.ltb_lt in El. rewrite (Hkn El), Z.eqb_refl. reflexivity.
+        * reflexivity.
+      + replace ((ldi <? length hs) && Z.eqb (Z.of_nat (kn + length (s' :: r'))) (Z.of_nat (nth ldi hs O)))
+          with false.
+        2:{ symmetry. destruct (ldi <? length hs) eqn:El; [|reflexivity].
+            apply Nat.ltb_lt in El. rewrite (Hkn El). cbn [andb length]. apply Z.eqb_neq. lia. }
+        rewrite (IH _ _ Hkn).
+        destruct (verify_walk (walk_step cur idx s) (idx / 2) (s' :: r')) as [d j].
+        reflexivity.
+  Qed.
+
+  Lemma skipn_cons_inv {A} n (l : list A) x r d :
+    skipn n l = x :: r -> nth n l d = x /\ n < length l /\ skipn (S n) l = r.
+  Proof.
+    revert l; induction n; intros l E.
+    - destruct l; [discriminate|]. cbn in E. injection E as -> ->. cbn. repeat split. lia.
+    - destruct l; [discriminate|]. cbn [skipn] in E. destruct (IHn _ E) as (H1 & H2 & H3).
+      cbn [nth length]. repeat split; auto. lia.
+  Qed.
+
+  Lemma nth_combine_cap cap cur j :
+    length cap = length cur -> j < length cur ->
+    forall d, nth j (combine_cap cap cur) [] = digest_to_vec (nth j cap d) ++ nth j cur [].
+  Proof.
+    intros Hl Hj d. unfold combine_cap.
+    rewrite (nth_indep _ [] (digest_to_vec (fst (d, @nil F)) ++ snd (d, @nil F)))
+      by (rewrite map_length, combine_length; lia).
+    rewrite (map_nth (fun p => digest_to_vec (fst p) ++ snd p)), combine_nth by exact Hl.
+    reflexivity.
+  Qed.
+
+  Lemma nth_cap_spec m h lv t d :
+    length lv = 2 ^ h * 2 ^ m -> t < 2 ^ h ->
+    nth t (cap_spec m lv) d = root m (chunk (2 ^ m) t lv).
+  Proof.
+    intros Hl Ht. apply nth_error_nth. unfold cap_spec, chunks.
+    rewrite Hl, Nat.div_mul, map_map by (pose proof (pow2_pos m); lia).
+    apply (nth_error_map_seq (fun j => root m (chunk (2 ^ m) j lv))). exact Ht.
+  Qed.
+
+  Lemma batch_walk_spec dbg ld hs h : forall rest lv kc idx ldi,
+    length lv = 2 ^ kc -> bwf kc rest h -> idx < 2 ^ kc ->
+    skipn ldi hs = map snd rest ->
+    skipn ldi ld = map (fun mk => nth (idx / 2 ^ (kc - snd mk)) (fst mk) []) rest ->
+    exists d,
+      batch_walk dbg ld hs (hash_leaf (nth idx lv [])) (Z.of_nat kc) ldi idx (bopen lv kc rest h idx)
+      = Some (d, ldi + length rest, idx / 2 ^ (kc - h))
+      /\ nth_error (bcap lv kc rest h) (idx / 2 ^ (kc - h)) = Some d.
+  Proof.
+    induction rest as [|[nxt kn] rest IH]; intros lv kc idx ldi Hl Hw Hidx Hhs Hld.
+    - cbn [bwf] in Hw. cbn [bopen bcap map length] in *.
+      set (m := kc - h).
+      assert (Hl' : length lv = 2 ^ h * 2 ^ m) by (rewrite Hl; apply pow2_km; exact Hw).
+      pose proof (pow2_pos m) as Hpm.
+      assert (Ht : idx / 2 ^ m < 2 ^ h).
+      { apply Nat.div_lt_upper_bound; [lia|]. rewrite Nat.mul_comm, <- Hl', Hl. exact Hidx. }
+      assert (Hc : length (chunk (2 ^ m) (idx / 2 ^ m) lv) = 2 ^ m) by (eapply chunk_length; eauto).
+      assert (Hldi : length hs <= ldi).
+      { destruct (Nat.le_gt_cases (length hs) ldi) as [|Hlt]; [assumption|].
+        assert (E : length (skipn ldi hs) = 0) by (rewrite Hhs; reflexivity).
+        rewrite skipn_length in E. lia. }
+      exists (root m (chunk (2 ^ m) (idx / 2 ^ m) lv)). split.
+      + pose proof (batch_walk_stage dbg ld hs h ldi [] (opening m lv idx)
+                                     (hash_leaf (nth idx lv [])) idx ltac:(lia)) as E.
+        rewrite app_nil_r in E. unfold opening in E at 1. rewrite path_length in E.
+        replace (h + m) with kc in E by (unfold m; lia). rewrite E. unfold opening.
+        rewrite <- (nth_chunk (2 ^ m) lv idx []) by lia.
+        rewrite (walk_path m _ idx Hc).
+        replace (ldi <? length hs) with false by (symmetry; apply Nat.ltb_ge; lia).
+        rewrite andb_false_r. cbn [Merkle.batch_walk]. rewrite Nat.add_0_r. reflexivity.
+      + rewrite (nth_error_nth' _ (root m (chunk (2 ^ m) (idx / 2 ^ m) lv)))
+          by (rewrite (cap_spec_length m h lv Hl'); exact Ht).
+        f_equal. apply (nth_cap_spec m h); assumption.
+    - cbn [bwf] in Hw. destruct Hw as (Hn & Hlt & Hw). pose proof (bwf_h _ _ _ Hw) as Hh.
+      cbn [bopen bcap map fst snd length] in *.
+      set (m := kc - kn).
+      assert (Hm : 0 < m) by (unfold m; lia).
+      assert (Hl' : length lv = 2 ^ kn * 2 ^ m) by (rewrite Hl; apply pow2_km; lia).
+      pose proof (pow2_pos m) as Hpm.
+      assert (Ht : idx / 2 ^ m < 2 ^ kn).
+      { apply Nat.div_lt_upper_bound; [lia|]. rewrite Nat.mul_comm, <- Hl', Hl. exact Hidx. }
+      assert (Hc : length (chunk (2 ^ m) (idx / 2 ^ m) lv) = 2 ^ m) by (eapply chunk_length; eauto).
+      destruct (skipn_cons_inv _ _ _ _ 0 Hhs) as (Hk1 & Hk2 & Hk3).
+      destruct (skipn_cons_inv _ _ _ _ [] Hld) as (Hv1 & Hv2 & Hv3).
+      set (lv' := combine_cap (cap_spec m lv) nxt).
+      assert (Hcl : length (cap_spec m lv) = length nxt)
+        by (rewrite (cap_spec_length m kn lv Hl'); lia).
+      assert (Hlv' : length lv' = 2 ^ kn) by (unfold lv'; rewrite combine_cap_length; assumption).
+      destruct (IH lv' kn (idx / 2 ^ m) (S ldi) Hlv' Hw Ht Hk3) as (d & Ed & Ecap).
+      { rewrite Hv3. apply map_ext_in. intros [m2 k2] Hin. cbn [fst snd].
+        destruct (bwf_all _ _ _ Hw _ Hin) as [_ Hk2']. cbn [snd] in Hk2'.
+        unfold m. rewrite div_div_pow. do 3 f_equal. lia. }
+      exists d. split.
+      + pose proof (batch_walk_stage dbg ld hs kn ldi
+                      (bopen lv' kn rest h (idx / 2 ^ m)) (opening m lv idx)
+                      (hash_leaf (nth idx lv [])) idx (fun _ => Hk1)) as E.
+        unfold opening in E at 1. rewrite path_length in E.
+        replace (kn + m) with kc in E by (unfold m; lia). rewrite E. unfold opening.
+        rewrite <- (nth_chunk (2 ^ m) lv idx []) by lia.
+        rewrite (walk_path m _ idx Hc).
+        rewrite path_length.
+        replace (0 <? m) with true by (symmetry; apply Nat.ltb_lt; exact Hm).
+        replace (ldi <? length hs) with true by (symmetry; apply Nat.ltb_lt; exact Hk2).
+        cbn [andb].
+        replace (digest_to_vec (root m (chunk (2 ^ m) (idx / 2 ^ m) lv)) ++ nth ldi ld [])
+          with (nth (idx / 2 ^ m) lv' []).
+        2:{ unfold lv'.
+            assert (Hj : idx / 2 ^ m < length nxt) by lia.
+            rewrite (nth_combine_cap _ _ _ Hcl Hj (root m (chunk (2 ^ m) (idx / 2 ^ m) lv))).
+            rewrite (nth_cap_spec m kn lv _ _ Hl' Ht), Hv1. reflexivity. }
+        rewrite Ed.
+        replace (S ldi + length rest) with (ldi + S (length rest)) by lia.
+        replace (idx / 2 ^ m / 2 ^ (kn - h)) with (idx / 2 ^ (kc - h))
+          by (unfold m; rewrite div_div_pow; do 2 f_equal; lia).
+        reflexivity.
+      + rewrite <- Ecap. f_equal. unfold m. rewrite div_div_pow. f_equal. f_equal. lia.
+  Qed.
+
+  (* Batch trees: the opening produced by open_batch for position i verifies against the batch
+     cap together with the rows values(i), for every number of layers and all heights. *)
+  Theorem batch_prove_verify dbg first k0 rest h i :
+    length first = 2 ^ k0 -> bwf k0 rest h -> i < 2 ^ k0 ->
+    exists t proof vals,
+      batch_merkle_tree_new (first :: map fst rest) h = Some t
+      /\ open_batch dbg t i = Some proof
+      /\ batch_values t i = Some vals
+      /\ verify_batch dbg vals (bt_leaf_heights t) i (bt_cap t) proof = VOk.
+  Proof.
+    intros Hf Hw Hi.
+    eexists. exists (bopen first k0 rest h i), (bvals i k0 ((first, k0) :: rest)).
+    split; [apply (batch_merkle_tree_new_spec first k0 rest h Hf Hw)|].
+    split; [apply open_batch_spec; assumption|].
+    split; [eapply batch_values_spec; eassumption|].
+    cbn [bt_leaf_heights bt_cap]. unfold Merkle.verify_batch_merkle_proof_to_cap.
+    unfold bvals. cbn [map fst snd length]. rewrite !map_length, Nat.eqb_refl. cbn [negb].
+    rewrite Nat.sub_diag. cbn [Nat.pow]. rewrite Nat.div_1_r.
+    destruct (batch_walk_spec dbg
+                (nth i first [] :: map (fun mk => nth (i / 2 ^ (k0 - snd mk)) (fst mk) []) rest)
+                (k0 :: map snd rest) h rest first k0 i 1 Hf Hw Hi eq_refl eq_refl) as (d & Ed & Ecap).
+    rewrite Ed. cbn [plus]. rewrite Nat.eqb_refl. cbn [negb].
+    rewrite Ecap, digest_eqb_refl. reflexivity.
+  Qed.
+
 End MerkleProofs.
 
 Arguments node_collision {digest}.
